@@ -1010,9 +1010,28 @@ func callBuiltin(caller *frame, fn *ssa.Builtin, args []value) value {
 			return arg0
 		}
 		// append([]T, ...[]T) []T
-		return append(args[0].([]value), args[1].([]value)...)
+		a0, a1 := args[0].([]value), args[1].([]value)
+		if sub := caller.i.ctx.sub(); sub != nil {
+			if len(a0)+len(a1) <= cap(a0) && len(a1) > 0 && !sub.cells[&a0[:cap(a0)][len(a0)]] {
+				panic(pureAbort{"append into spare capacity of a slice the callee did not allocate"})
+			}
+			r := append(a0, a1...)
+			if len(a0)+len(a1) > cap(a0) {
+				full := r[:cap(r)]
+				for k := range full {
+					sub.registerCell(&full[k], 0)
+				}
+			}
+			return r
+		}
+		return append(a0, a1...)
 
 	case "copy": // copy([]T, []T) int or copy([]byte, string) int
+		if sub := caller.i.ctx.sub(); sub != nil {
+			if dst := args[0].([]value); len(dst) > 0 && !sub.cells[&dst[0]] {
+				panic(pureAbort{"copy into a slice the callee did not allocate"})
+			}
+		}
 		src := args[1]
 		if _, ok := src.(string); ok {
 			params := fn.Type().(*types.Signature).Params()
@@ -1027,6 +1046,9 @@ func callBuiltin(caller *frame, fn *ssa.Builtin, args []value) value {
 	case "delete": // delete(map[K]value, K)
 		switch m := args[0].(type) {
 		case *omap:
+			if sub := caller.i.ctx.sub(); sub != nil && m != nil && !sub.maps[m] {
+				panic(pureAbort{"delete from a map the callee did not create"})
+			}
 			if m != nil {
 				m.delete(args[1])
 			}
@@ -1036,6 +1058,7 @@ func callBuiltin(caller *frame, fn *ssa.Builtin, args []value) value {
 		return nil
 
 	case "clear":
+		caller.i.ctx.noEffect("clear")
 		switch m := args[0].(type) {
 		case *omap:
 			m.clear()
